@@ -11,6 +11,7 @@ pub struct Sensor<T: Clone> {
     pub cur: Rc<RefCell<Output<T, E>>>,
     pub gets: Rc<Cell<u64>>,
     pub updates: Rc<Cell<u64>>,
+    pub flap: Rc<Cell<Option<u8>>>,
 }
 
 #[derive(Clone)]
@@ -18,6 +19,9 @@ pub struct SensorHandle<T: Clone> {
     pub cur: Rc<RefCell<Output<T, E>>>,
     pub gets: Rc<Cell<u64>>,
     pub updates: Rc<Cell<u64>>,
+    /// fault: when Some(e), the next read is answered as scripted and flips the cell to Err(e) (a live
+    /// input that changes between two reads of one call); setting the cell disarms
+    pub flap: Rc<Cell<Option<u8>>>,
 }
 
 impl<T: Clone> SensorHandle<T> {
@@ -26,6 +30,7 @@ impl<T: Clone> SensorHandle<T> {
             cur: Rc::new(RefCell::new(Ok(None))),
             gets: Rc::new(Cell::new(0)),
             updates: Rc::new(Cell::new(0)),
+            flap: Rc::new(Cell::new(None)),
         }
     }
     pub fn sensor(&self) -> Sensor<T> {
@@ -33,10 +38,12 @@ impl<T: Clone> SensorHandle<T> {
             cur: self.cur.clone(),
             gets: self.gets.clone(),
             updates: self.updates.clone(),
+            flap: self.flap.clone(),
         }
     }
     pub fn set(&self, v: Output<T, E>) {
         *self.cur.borrow_mut() = v;
+        self.flap.set(None);
     }
     pub fn peek(&self) -> Output<T, E> {
         self.cur.borrow().clone()
@@ -46,7 +53,11 @@ impl<T: Clone> SensorHandle<T> {
 impl<T: Clone> Getter<T, E> for Sensor<T> {
     fn get(&self) -> Output<T, E> {
         self.gets.set(self.gets.get() + 1);
-        self.cur.borrow().clone()
+        let now = self.cur.borrow().clone();
+        if let Some(k) = self.flap.take() {
+            *self.cur.borrow_mut() = Err(err_of(k));
+        }
+        now
     }
 }
 thread_local! {
